@@ -983,6 +983,22 @@ def _list_method(I, run, recv, c: HList, name, args, kwargs, node) -> Value:
                 I.raise_builtin(run, "TypeError", node)
         if len(c.items) <= 1:
             return NONE
+
+        def const_tuple(x):
+            x = I.resolve(run, x)
+            if isinstance(x, Tup) and all(isinstance(I.resolve(run, y), C) for y in x.items):
+                return tuple(I.resolve(run, y).v for y in x.items)
+            return None
+
+        tups = [const_tuple(x) for x in c.items]
+        if all(t is not None for t in tups) and "key" not in kwargs:
+            try:
+                rev = kwargs.get("reverse", FALSE)
+                order = sorted(range(len(tups)), key=lambda i: tups[i], reverse=bool(rev.v) if isinstance(rev, C) else False)
+                c.items[:] = [Tup(tuple(C(v) for v in tups[i])) for i in order]
+                return NONE
+            except TypeError:
+                I.raise_builtin(run, "TypeError", node)
         run.effect("list.sort", (recv,), node=node)
         c.items[:] = [App("sorted_elem", (Tup(tuple(c.items)), C(i))) for i in range(len(c.items))]
         return NONE
